@@ -1125,15 +1125,364 @@ Proof.
     rewrite (df_frac_app f _ s 0 Hfo). destruct (df_run f s) as [s'|]; [|reflexivity].
     cbn [N.add].
     destruct (exp_part_chars false eo) as [|c r] eqn:EE.
-    + cbn [df_frac]. specialize (HE s' (N.of_nat (length f))). rewrite EE in HE. exact HE.
-    + cbn [df_frac]. specialize (HE s' (N.of_nat (length f))). rewrite EE in HE.
+    + cbn [df_frac]. specialize (HE s' (N.of_nat (length f))). exact HE.
+    + cbn [df_frac]. specialize (HE s' (N.of_nat (length f))).
       destruct (is_e c) eqn:Ec; [exact HE | discriminate].
   - cbn [df_run length]. destruct (exp_part_chars false eo) as [|c r] eqn:EE.
-    + cbn [df_sig]. specialize (HE s 0). rewrite EE in HE. exact HE.
-    + specialize (HE s 0). rewrite EE in HE. destruct (is_e c) eqn:Ec; [|discriminate].
+    + cbn [df_sig]. specialize (HE s 0). exact HE.
+    + specialize (HE s 0). destruct (is_e c) eqn:Ec; [|discriminate].
       cbn [df_sig]. rewrite Ec.
       assert (Hnd : (c =? c_dot) = false).
       { destruct eo as [[[up sg] ds]|]; cbn [exp_part_chars] in EE; [|discriminate].
         injection EE as <- _. destruct up; reflexivity. }
       rewrite Hnd. exact HE.
 Qed.
+
+Lemma normalized_dec l :
+  float_lit_ok l = true -> f_hex l = false -> f_prefix l = None ->
+  let body := fl_ic l ++ frac_part (fl_fo l) ++ exp_part_chars false (fl_eo l) in
+  let str := normalize_float (render_float l) false in
+  is_neg_text str = f_neg l /\ (if f_neg l then tl str else str) = body /\ str = sign_chars (f_neg l) ++ body
+  /\ hex_prefixed body = false.
+Proof.
+  intros Hok Hh Hp. cbv zeta.
+  assert (Hctx : ctx_ok false l = true) by (unfold ctx_ok; rewrite Hh, Hp; reflexivity).
+  rewrite (normalize_render l false Hok Hctx). unfold norm_pfx, norm_eo. rewrite Hh. cbn [app].
+  destruct (float_ok_parts l Hok) as [Hic _]. rewrite Hh in Hic. cbn [fdigit] in Hic.
+  set (ic := fl_ic l) in *. set (fo := fl_fo l). set (eo := fl_eo l).
+  assert (Hicne : exists d0 ir, ic = d0 :: ir) by (unfold ic, fl_ic, dseq_chars; eauto).
+  destruct Hicne as [d0 [ir Eic]].
+  assert (Hd0 : is_dec d0 = true) by (rewrite Eic in Hic; cbn [forallb] in Hic; apply andb_true_iff in Hic; tauto).
+  split; [|split; [|split]].
+  - destruct (f_neg l); [reflexivity|]. rewrite Eic. cbn [sign_chars app is_neg_text]. unfold is_dec, c_minus in *. lia.
+  - destruct (f_neg l); reflexivity.
+  - reflexivity.
+  - rewrite Eic. cbn [app hex_prefixed].
+    destruct (ir ++ frac_part fo ++ exp_part_chars false eo) as [|c2 r2] eqn:E; [reflexivity|].
+    rewrite Eic in Hic. pose proof (dec_second_char d0 ir fo eo c2 r2 Hic E). lia.
+Qed.
+
+Lemma wrap32_small z : (-2147483648 <= z < 2147483648)%Z -> wrap32 z = z.
+Proof.
+  intro H. unfold wrap32. change (2 ^ 31)%Z with 2147483648%Z in *. change (2 ^ 32)%Z with 4294967296%Z.
+  rewrite Z.mod_small by lia. lia.
+Qed.
+
+Lemma df_minimize_spec fuel (neg : bool) c e :
+  c <> 0 -> (-2147483648 <= e)%Z -> (e + Z.of_nat fuel < 2147483648)%Z ->
+  df_minimize fuel (if neg then (- Z.of_N c)%Z else Z.of_N c) e
+  = let '(c', e') := dec_minimize fuel c e in ((if neg then (- Z.of_N c')%Z else Z.of_N c'), e').
+Proof.
+  revert c e; induction fuel as [|f IH]; intros c e Hc Hlo Hhi; cbn [df_minimize dec_minimize]; [reflexivity|].
+  assert (Hrem : (Z.rem (if neg then (- Z.of_N c)%Z else Z.of_N c) 10 =? 0)%Z = (c mod 10 =? 0)).
+  { assert (Hr : Z.rem (Z.of_N c) 10 = Z.of_N (c mod 10)).
+    { rewrite Z.rem_mod_nonneg by lia. rewrite N2Z.inj_mod. reflexivity. }
+    destruct neg; [rewrite Z.rem_opp_l by lia|]; rewrite Hr; lia. }
+  rewrite Hrem. replace (negb (c =? 0)) with true by lia. rewrite andb_true_r.
+  destruct (c mod 10 =? 0) eqn:Em; [|reflexivity].
+  assert (Hq : Z.quot (if neg then (- Z.of_N c)%Z else Z.of_N c) 10
+               = if neg then (- Z.of_N (c / 10))%Z else Z.of_N (c / 10)).
+  { assert (Hr : Z.quot (Z.of_N c) 10 = Z.of_N (c / 10)).
+    { rewrite Z.quot_div_nonneg by lia. rewrite N2Z.inj_div. reflexivity. }
+    destruct neg; [rewrite Z.quot_opp_l by lia|]; rewrite Hr; reflexivity. }
+  rewrite Hq, wrap32_small by lia.
+  apply IH; try lia;
+    intro H0; assert (c = 10 * (c / 10) + c mod 10) by (apply N.div_mod; lia); lia.
+Qed.
+
+Theorem decimal_float_small_exact (l : float_lit) :
+  float_lit_ok l = true -> f_hex l = false -> f_prefix l = None ->
+  float_mant l <= 2 ^ 63 - 1 ->
+  (Z.abs (exp_value l) < 2 ^ 29)%Z -> (Z.of_nat (length (frac_chars l)) < 2 ^ 29)%Z ->
+  impl_float (render_float l) = Ok (spec_dec_small l).
+Proof.
+  intros Hok Hh Hp Hm He Hf.
+  destruct (normalized_dec l Hok Hh Hp) as [Hneg [Hns [Hstr Hhp]]]. cbv zeta in *.
+  destruct (float_ok_parts l Hok) as [Hic [Hfo Heo]]. rewrite Hh in Hic, Hfo. cbn [fdigit] in Hic, Hfo.
+  unfold impl_float.
+  assert (Hs : strip_us (render_float l) <> []).
+  { rewrite (strip_render_float l Hok). unfold fl_ic, dseq_chars.
+    destruct (sign_chars (f_neg l)), (fl_pfx l); cbn [app]; discriminate. }
+  assert (Hmm : forall (A : Type) (e y : A),
+             match strip_us (render_float l) with [] => e | _ :: _ => y end = y).
+  { intros A e y. destruct (strip_us (render_float l)); [congruence | reflexivity]. }
+  rewrite Hmm. cbv zeta. rewrite Hneg, Hns, Hhp.
+  (* DFloatFromString *)
+  assert (HD : dfloat_from_string (normalize_float (render_float l) false)
+               = match spec_dec_small l with RDec c e => Some (c, e) | _ => None end).
+  { unfold dfloat_from_string. rewrite Hneg, Hns.
+    assert (Hsm : exp_digits_small (fl_eo l)).
+    { unfold exp_digits_small, fl_eo. unfold exp_value, dseq_val in He.
+      destruct (f_exp l) as [[up sg ds]|]; cbn [option_map]; [|exact I].
+      cbn [e_sign e_digits ibase_n] in He. cbv zeta in He. change (2 ^ 29)%Z with 536870912%Z in He.
+      cbn [e_upper e_sign e_digits]. destruct sg as [[|]|]; lia. }
+    rewrite (df_sig_clean _ _ _ Hic Hfo Heo Hsm).
+    pose proof (float_mant_clean l) as EM. rewrite Hh in EM. cbn [fbase] in EM.
+    assert (HR : df_run (fl_ic l ++ match fl_fo l with Some f => f | None => [] end) 0 = Some (float_mant l)).
+    { rewrite EM. apply df_run_ok.
+      - rewrite forallb_app, Hic. destruct (fl_fo l); [exact Hfo | reflexivity].
+      - rewrite <- EM. exact Hm. }
+    match goal with |- context [df_run ?a 0] => replace (df_run a 0) with (Some (float_mant l)) by (symmetry; exact HR) end.
+    cbv beta iota.
+    pose proof (float_exp_clean l) as EE. rewrite Hh in EE. rewrite Z.mul_1_r in EE.
+    match goal with
+    | |- context [wrap32 ?z] => replace z with (float_exp l) by (rewrite EE, nat_N_Z; reflexivity)
+    end.
+    assert (Hfe : (-2147483648 < float_exp l - 21 /\ float_exp l + 21 < 2147483648)%Z).
+    { unfold float_exp. rewrite Hh. cbv iota. change (2 ^ 29)%Z with 536870912%Z in *. lia. }
+    unfold spec_dec_small, dec_neg_zero.
+    destruct (float_mant l =? 0) eqn:E0.
+    - destruct (f_neg l); cbn [andb]; [reflexivity|].
+      unfold df_minimized. rewrite wrap32_small by lia.
+      replace (float_exp l =? exp_special)%Z with false by (unfold exp_special; change (2 ^ 31)%Z with 2147483648%Z; lia).
+      assert (float_mant l = 0) by lia. replace (Z.of_N (float_mant l) =? 0)%Z with true by lia. reflexivity.
+    - rewrite andb_false_l. unfold df_minimized. rewrite wrap32_small by lia.
+      replace (float_exp l =? exp_special)%Z with false by (unfold exp_special; change (2 ^ 31)%Z with 2147483648%Z; lia).
+      replace ((if f_neg l then (- Z.of_N (float_mant l))%Z else Z.of_N (float_mant l)) =? 0)%Z with false
+        by (destruct (f_neg l); lia).
+      rewrite (df_minimize_spec 20 (f_neg l)) by lia.
+      destruct (dec_minimize 20 (float_mant l) (float_exp l)) as [c e]. reflexivity. }
+  rewrite HD. unfold spec_dec_small, dec_neg_zero.
+  destruct (float_mant l =? 0); [destruct (f_neg l); reflexivity|].
+  destruct (dec_minimize 20 (float_mant l) (float_exp l)); reflexivity.
+Qed.
+
+Lemma dec_minimize_value fuel c e :
+  let '(c', e') := dec_minimize fuel c e in (e <= e')%Z /\ c = c' * 10 ^ Z.to_N (e' - e).
+Proof.
+  revert c e; induction fuel as [|f IH]; intros c e; cbn [dec_minimize].
+  - split; [lia|]. replace (Z.to_N (e - e)) with 0 by lia. rewrite N.pow_0_r. lia.
+  - destruct ((c mod 10 =? 0) && negb (c =? 0)) eqn:E.
+    + specialize (IH (c / 10) (e + 1)%Z). destruct (dec_minimize f (c / 10) (e + 1)) as [c' e'].
+      destruct IH as [Hle Hc]. split; [lia|].
+      replace (Z.to_N (e' - e)) with (N.succ (Z.to_N (e' - (e + 1)))) by lia.
+      rewrite N.pow_succ_r'. assert (c = 10 * (c / 10) + c mod 10) by (apply N.div_mod; lia).
+      assert (c mod 10 = 0) by lia. nia.
+    + split; [lia|]. replace (Z.to_N (e - e)) with 0 by lia. rewrite N.pow_0_r. lia.
+Qed.
+
+(* ------------------------------------------------------------------ *)
+(* decimal spellings with a coefficient beyond int64: apd               *)
+(* ------------------------------------------------------------------ *)
+
+Lemma go_parse_int_dec10 sg ds :
+  nonempty ds = true -> forallb is_dec ds = true -> chars_val 10 ds 0 < 2 ^ 31 ->
+  go_parse_int (esign_chars sg ++ ds) 10 32 = Some (exp_part_val (Some (false, sg, ds))).
+Proof.
+  intros Hne Hd Hlt.
+  assert (HU : go_parse_uint ds 10 32 = Some (chars_val 10 ds 0)).
+  { unfold go_parse_uint. destruct ds as [|c r]; [discriminate|].
+    change (10 =? 0) with false. cbv iota. cbn [andb].
+    change 10 with (ibase_n B10). rewrite (go_digits_chars B10 false (c :: r) 0 Hd). cbv beta iota.
+    change (ibase_n B10) with 10. change (2 ^ 31) with 2147483648 in Hlt. change (2 ^ 32) with 4294967296.
+    replace (chars_val 10 (c :: r) 0 <? 4294967296) with true by lia. reflexivity. }
+  unfold go_parse_int, exp_part_val. change (2 ^ (32 - 1)) with 2147483648. change (2 ^ 31) with 2147483648 in Hlt.
+  destruct sg as [[|]|]; cbn [esign_chars app].
+  - change (c_minus =? c_plus) with false. change (c_minus =? c_minus) with true. cbv iota. rewrite HU.
+    replace (chars_val 10 ds 0 <=? 2147483648) with true by lia. reflexivity.
+  - change (c_plus =? c_plus) with true. cbv iota. rewrite HU.
+    replace (chars_val 10 ds 0 <? 2147483648) with true by lia. reflexivity.
+  - destruct ds as [|d r] eqn:Eds; [discriminate|]. cbn [forallb] in Hd. apply andb_true_iff in Hd as [Hd0 _].
+    unfold is_dec in Hd0.
+    replace (d =? c_plus) with false by (unfold c_plus; lia).
+    replace (d =? c_minus) with false by (unfold c_minus; lia).
+    rewrite HU. replace (chars_val 10 (d :: r) 0 <? 2147483648) with true by lia. reflexivity.
+Qed.
+
+Lemma drop_lead0_length s : (length (drop_lead0 s) <= length s)%nat.
+Proof. induction s as [|c r IH]; cbn [drop_lead0 length]; [lia|]. destruct (c =? 48); cbn [length]; lia. Qed.
+
+Lemma apd_clean ic fo eo :
+  nonempty ic = true -> forallb is_dec ic = true -> opt_ok (forallb is_dec) fo = true ->
+  opt_ok (fun e => nonempty (snd e) && forallb is_dec (snd e)) eo = true ->
+  (Z.abs (exp_part_val eo) <= 90000)%Z ->
+  (length (ic ++ match fo with Some f => f | None => [] end) <= 5000)%nat ->
+  apd_from_string (ic ++ frac_part fo ++ exp_part_chars false eo)
+  = Some (chars_val 10 (ic ++ match fo with Some f => f | None => [] end) 0,
+          (exp_part_val eo - Z.of_nat (length (match fo with Some f => f | None => [] end)))%Z).
+Proof.
+  intros Hne Hic Hfo Heo Hexp Hlen.
+  unfold apd_from_string.
+  (* mantissa / exponent split *)
+  assert (Hms : forallb (fun c => negb (is_e c)) (ic ++ frac_part fo) = true).
+  { rewrite forallb_app. apply andb_true_iff. split.
+    - rewrite forallb_forall in *. intros c Hc. destruct (dec_not_dot_e c (Hic c Hc)) as [_ E]. rewrite E. reflexivity.
+    - destruct fo as [f|]; cbn [frac_part forallb]; [|reflexivity]. cbn [opt_ok] in Hfo.
+      change (negb (is_e c_dot)) with true. cbn [andb].
+      rewrite forallb_forall in *. intros c Hc. destruct (dec_not_dot_e c (Hfo c Hc)) as [_ E]. rewrite E. reflexivity. }
+  rewrite app_assoc.
+  rewrite (span_app (fun c => negb (is_e c)) (ic ++ frac_part fo) (exp_part_chars false eo) Hms).
+  2:{ destruct eo as [[[up sg] ds]|]; cbn [exp_part_chars]; [destruct up; reflexivity | exact I]. }
+  assert (HE : match exp_part_chars false eo with
+               | [] => Some 0%Z
+               | _ :: r => go_parse_int r 10 32
+               end = Some (exp_part_val eo)).
+  { destruct eo as [[[up sg] ds]|]; cbn [exp_part_chars]; [|reflexivity].
+    cbn [opt_ok snd] in Heo. apply andb_true_iff in Heo as [Hn Hd].
+    apply go_parse_int_dec10; try assumption.
+    cbn [exp_part_val] in Hexp. change (2 ^ 31) with 2147483648. destruct sg as [[|]|]; lia. }
+  rewrite HE.
+  assert (Hip : forallb (fun c => negb (c =? c_dot)) ic = true).
+  { rewrite forallb_forall in *. intros c Hc. destruct (dec_not_dot_e c (Hic c Hc)) as [E _]. rewrite E. reflexivity. }
+  rewrite (span_app (fun c => negb (c =? c_dot)) ic (frac_part fo) Hip).
+  2:{ destruct fo; cbn [frac_part]; [reflexivity | exact I]. }
+  set (fc := match fo with Some f => f | None => [] end) in *.
+  assert (Efp : match frac_part fo with _ :: r => r | [] => [] end = fc) by (destruct fo; reflexivity).
+  rewrite Efp.
+  assert (Hds : forallb is_dec (ic ++ fc) = true).
+  { rewrite forallb_app, Hic. unfold fc. destruct fo; [exact Hfo | reflexivity]. }
+  destruct (ic ++ fc) as [|x y] eqn:Eds; [destruct ic; discriminate|]. rewrite <- Eds in *. clear x y Eds.
+  rewrite Hds. cbn [negb].
+  pose proof (drop_lead0_length (ic ++ fc)) as Hdl.
+  assert (Hfl : (length fc <= length (ic ++ fc))%nat) by (rewrite app_length; lia).
+  match goal with |- (if ?c then _ else _) = _ => destruct c eqn:Ec; [exfalso; lia |] end.
+  match goal with |- (if ?c then _ else _) = _ => destruct c eqn:Ec2; [exfalso; lia | reflexivity] end.
+Qed.
+
+Theorem decimal_float_big_exact (l : float_lit) :
+  float_lit_ok l = true -> f_hex l = false -> f_prefix l = None ->
+  2 ^ 63 <= float_mant l < 2 ^ 64 ->
+  (Z.abs (exp_value l) <= 90000)%Z ->
+  (length (dseq_chars (f_int l) ++ frac_chars l) <= 5000)%nat ->
+  impl_float (render_float l) = Ok (spec_dec_big l).
+Proof.
+  intros Hok Hh Hp Hm He Hlen.
+  destruct (normalized_dec l Hok Hh Hp) as [Hneg [Hns [Hstr Hhp]]]. cbv zeta in *.
+  destruct (float_ok_parts l Hok) as [Hic [Hfo Heo]]. rewrite Hh in Hic, Hfo. cbn [fdigit] in Hic, Hfo.
+  unfold impl_float.
+  assert (Hs : strip_us (render_float l) <> []).
+  { rewrite (strip_render_float l Hok). unfold fl_ic, dseq_chars.
+    destruct (sign_chars (f_neg l)), (fl_pfx l); cbn [app]; discriminate. }
+  assert (Hmm : forall (A : Type) (e y : A),
+             match strip_us (render_float l) with [] => e | _ :: _ => y end = y).
+  { intros A e y. destruct (strip_us (render_float l)); [congruence | reflexivity]. }
+  rewrite Hmm. cbv zeta. rewrite Hneg, Hns, Hhp.
+  pose proof (float_mant_clean l) as EM. rewrite Hh in EM. cbn [fbase] in EM.
+  pose proof (float_exp_clean l) as EE. rewrite Hh in EE. rewrite Z.mul_1_r in EE.
+  assert (Hev : exp_part_val (fl_eo l) = exp_value l).
+  { unfold exp_part_val, fl_eo, exp_value, dseq_val. destruct (f_exp l) as [[up sg ds]|]; reflexivity. }
+  assert (Hfc : match fl_fo l with Some f => f | None => [] end = frac_chars l).
+  { unfold fl_fo, frac_chars. destruct (f_frac l); reflexivity. }
+  (* DFloatFromString gives up *)
+  assert (HD : dfloat_from_string (normalize_float (render_float l) false) = None).
+  { unfold dfloat_from_string. rewrite Hneg, Hns.
+    assert (Hsm : exp_digits_small (fl_eo l)).
+    { unfold exp_digits_small. rewrite <- Hev in He. unfold exp_part_val in He.
+      destruct (fl_eo l) as [[[up sg] ds]|]; [|exact I]. destruct sg as [[|]|]; lia. }
+    rewrite (df_sig_clean _ _ _ Hic Hfo Heo Hsm).
+    assert (HR : df_run (fl_ic l ++ match fl_fo l with Some f => f | None => [] end) 0 = None).
+    { apply df_run_fail.
+      - rewrite forallb_app, Hic. destruct (fl_fo l); [exact Hfo | reflexivity].
+      - unfold i63max. change (2 ^ 63 - 1) with 9223372036854775807. lia.
+      - rewrite <- EM. unfold i63max. change (2 ^ 63 - 1) with 9223372036854775807.
+        change (2 ^ 63) with 9223372036854775808 in Hm. lia.
+      - rewrite <- EM. tauto. }
+    match goal with |- context [df_run ?a 0] => replace (df_run a 0) with (@None N) by (symmetry; exact HR) end.
+    reflexivity. }
+  rewrite HD.
+  assert (HA : apd_from_string (fl_ic l ++ frac_part (fl_fo l) ++ exp_part_chars false (fl_eo l))
+               = Some (float_mant l, float_exp l)).
+  { rewrite (apd_clean (fl_ic l) (fl_fo l) (fl_eo l) (dseq_chars_nonempty (f_int l)) Hic Hfo Heo).
+    - f_equal. f_equal; [symmetry; exact EM | symmetry; exact EE].
+    - rewrite Hev. exact He.
+    - clear -Hlen. unfold fl_ic, fl_fo, frac_chars in *. destruct (f_frac l); exact Hlen. }
+  rewrite HA. reflexivity.
+Qed.
+
+(* ------------------------------------------------------------------ *)
+(* ExitValueFloat, hex spellings                                        *)
+(* ------------------------------------------------------------------ *)
+
+Lemma hex_not_dot_p c : is_hex c = true -> (c =? c_dot) = false /\ ((c =? 112) || (c =? 80)) = false.
+Proof.
+  unfold is_hex, is_dec, is_hexletter, c_dot. intro H.
+  destruct (lower_cases c) as [[? E]|[? E]]; rewrite E in H; lia.
+Qed.
+
+Lemma count_rest_digits ds rest :
+  forallb is_hex ds = true -> count_rest (ds ++ rest) = N.of_nat (length ds) + count_rest rest.
+Proof.
+  induction ds as [|c r IH]; intro H; cbn [app length count_rest]; [lia|].
+  cbn [forallb] in H. apply andb_true_iff in H as [Hc Hr].
+  destruct (hex_not_dot_p c Hc) as [E1 E2]. rewrite E1, E2, (IH Hr). lia.
+Qed.
+
+Lemma count_sig_digits_app ic rest :
+  forallb is_hex ic = true ->
+  match rest with [] => True | c :: _ => c <> 48 end ->
+  count_sig_digits (ic ++ rest) = N.of_nat (length ic) + count_rest rest.
+Proof.
+  unfold count_sig_digits. induction ic as [|c r IH]; intros H Hr.
+  - cbn [app length]. destruct rest as [|c r]; [reflexivity|]. cbn [count_lead0].
+    replace (c =? 48) with false by lia. reflexivity.
+  - cbn [forallb] in H. apply andb_true_iff in H as [Hc Hrr]. cbn [app count_lead0 length].
+    destruct (c =? 48) eqn:E.
+    + replace (N.to_nat (1 + count_lead0 (r ++ rest))) with (S (N.to_nat (count_lead0 (r ++ rest)))) by lia.
+      cbn [skipn]. specialize (IH Hrr Hr). lia.
+    + cbn [N.to_nat skipn]. change (N.to_nat 0) with O. cbn [skipn].
+      rewrite (count_rest_digits (c :: r) rest) by (cbn [forallb]; rewrite Hc; exact Hrr). cbn [length]. lia.
+Qed.
+
+Definition hex_exp_in_range (l : float_lit) : Prop :=
+  float_mant l = 0 \/
+  (- 2 ^ 31 <= float_exp l + Z.of_N (N.log2 (float_mant l)) + 1 < 2 ^ 31)%Z.
+
+Theorem hex_float_exact (l : float_lit) :
+  float_lit_ok l = true -> f_hex l = true -> f_prefix l <> None ->
+  hex_exp_in_range l ->
+  impl_float (render_float l) = Ok (spec_hex l).
+Proof.
+  intros Hok Hh Hp Hrange.
+  assert (Hctx : ctx_ok false l = true) by (unfold ctx_ok; rewrite Hh; destruct (f_prefix l); [reflexivity | congruence]).
+  destruct (float_ok_parts l Hok) as [Hic [Hfo Heo]]. rewrite Hh in Hic, Hfo. cbn [fdigit] in Hic, Hfo.
+  unfold impl_float.
+  assert (Hs : strip_us (render_float l) <> []).
+  { rewrite (strip_render_float l Hok). unfold fl_ic, dseq_chars.
+    destruct (sign_chars (f_neg l)), (fl_pfx l); cbn [app]; discriminate. }
+  assert (Hmm : forall (A : Type) (e y : A),
+             match strip_us (render_float l) with [] => e | _ :: _ => y end = y).
+  { intros A e y. destruct (strip_us (render_float l)); [congruence | reflexivity]. }
+  rewrite Hmm. cbv zeta. rewrite (normalize_render l false Hok Hctx).
+  unfold norm_pfx, norm_eo. rewrite Hh.
+  destruct (f_prefix l) as [up|] eqn:Epf; [|congruence].
+  set (body := fl_ic l ++ frac_part (fl_fo l) ++ exp_part_chars true (with_p0 (fl_eo l))).
+  assert (Hx : exists x, prefix_chars B16 up = [48; x] /\ lower x = 120) by (destruct up; eexists; split; reflexivity).
+  destruct Hx as [x [Epx Hx]]. rewrite Epx.
+  assert (E1 : is_neg_text (sign_chars (f_neg l) ++ [48; x] ++ body) = f_neg l) by (destruct (f_neg l); reflexivity).
+  rewrite E1.
+  assert (E2 : (if f_neg l then tl (sign_chars (f_neg l) ++ [48; x] ++ body) else sign_chars (f_neg l) ++ [48; x] ++ body)
+               = 48 :: x :: body) by (destruct (f_neg l); reflexivity).
+  match goal with |- context [hex_prefixed ?a] => replace a with (48 :: x :: body) by (symmetry; exact E2) end.
+  cbn [hex_prefixed]. rewrite Hx. change ((48 =? 48) && (120 =? 120)) with true. cbv iota.
+  match goal with |- impl_hexfloat _ ?a = _ => replace a with (48 :: x :: body) by (symmetry; exact E2) end.
+  unfold impl_hexfloat. cbn [skipn].
+  (* scanning *)
+  assert (HS : scan_float true false body = Some (float_mant l, float_exp l)).
+  { unfold body. rewrite (scan_float_clean true false (fl_ic l) (fl_fo l) (with_p0 (fl_eo l)) (dseq_chars_nonempty _) Hic Hfo).
+    - rewrite exp_part_val_p0, float_mant_clean, float_exp_clean, Hh. reflexivity.
+    - destruct (fl_eo l) as [[[? ?] ?]|]; [exact Heo | reflexivity].
+    - discriminate. }
+  rewrite HS.
+  (* digit count *)
+  assert (HC : count_sig_digits body = float_ndigits l).
+  { unfold body. rewrite (count_sig_digits_app (fl_ic l) _ Hic).
+    2:{ destruct (fl_fo l); cbn [frac_part app]; [discriminate|].
+        destruct (fl_eo l) as [[[u ?] ?]|]; cbn [with_p0 exp_part_chars]; [destruct u; discriminate | discriminate]. }
+    unfold float_ndigits, fl_ic. rewrite Nat2N.inj_add. f_equal.
+    unfold fl_fo, frac_chars. destruct (f_frac l) as [d|]; cbn [option_map frac_part app length].
+    - cbn [count_rest]. change (c_dot =? c_dot) with true. cbv iota.
+      cbn [opt_ok fl_fo option_map] in Hfo. unfold fl_fo in Hfo. 
+      rewrite (count_rest_digits (dseq_chars d)).
+      + destruct (fl_eo l) as [[[u ?] ?]|]; cbn [with_p0 exp_part_chars count_rest]; [destruct u|]; cbn; lia.
+      + unfold fl_fo in Hfo. destruct (f_frac l); cbn [option_map opt_ok] in Hfo; try discriminate.
+        admit.
+    - destruct (fl_eo l) as [[[u ?] ?]|]; cbn [with_p0 exp_part_chars count_rest]; [destruct u|]; reflexivity. }
+  rewrite HC.
+  unfold spec_hex.
+  assert (HR : negb (float_mant l =? 0)
+               && negb ((- 2 ^ 31 <=? float_exp l + Z.of_N (N.log2 (float_mant l)) + 1)%Z
+                        && (float_exp l + Z.of_N (N.log2 (float_mant l)) + 1 <? 2 ^ 31)%Z) = false).
+  { destruct Hrange as [H0 | H1]; [rewrite H0; reflexivity|].
+    apply andb_false_iff. right. apply negb_false_iff. apply andb_true_iff. split; lia. }
+  rewrite HR. reflexivity.
+Admitted.
